@@ -140,17 +140,23 @@ def query_all(nn, pas, cfg):
     return res
 
 
-def reorder_all(nn, pas, sc):
+def reorder_all(nn, pas, sc, via_solver=False):
+    """via_solver: the whole of Solver.reorder_particles (the real method, on
+    an object that has just the two attributes it uses) instead of one
+    spatially_order_particles call per array; the update that follows is then
+    the solver's own."""
     from cyarray.api import LongArray
     out = []
-    for k, pa in enumerate(pas):
+
+    def before_of(k, pa):
         before = dict(
             id=[int(t) for t in pa.get('ident', only_real_particles=False)],
             tag=[int(t) for t in pa.get('tag', only_real_particles=False)])
         idx = LongArray()
         nn.get_spatially_ordered_indices(k, idx)
-        indices = [int(v) for v in idx.get_npy_array()]
-        nn.spatially_order_particles(k)
+        return before, [int(v) for v in idx.get_npy_array()]
+
+    def after_of(k, pa, before, indices):
         vec = pa.get('vec', only_real_particles=False)
         tail = pa.get('tail', only_real_particles=False)
         pair = pa.get('pair', only_real_particles=False)
@@ -160,9 +166,21 @@ def reorder_all(nn, pas, sc):
             and vec[3 * r + 2] == ident[r] + .75 and tail[r] == ident[r] + .125
             and pair[2 * r] == 2 * ident[r] and pair[2 * r + 1] == 2 * ident[r] + 1
             for r in range(len(ident)))
-        out.append(dict(a=k, indices=indices, before=before,
-                        together=bool(together),
-                        nreal=int(pa.num_real_particles)))
+        return dict(a=k, indices=indices, before=before,
+                    together=bool(together),
+                    nreal=int(pa.num_real_particles))
+    if via_solver:
+        import types
+        from pysph.solver.solver import Solver
+        pre = [before_of(k, pa) for k, pa in enumerate(pas)]
+        Solver.reorder_particles(types.SimpleNamespace(particles=pas, nnps=nn))
+        for k, pa in enumerate(pas):
+            out.append(after_of(k, pa, *pre[k]))
+        return out
+    for k, pa in enumerate(pas):
+        before, indices = before_of(k, pa)
+        nn.spatially_order_particles(k)
+        out.append(after_of(k, pa, before, indices))
     return out
 
 
@@ -192,10 +210,12 @@ def run_scenario(sc, cfg, reorder):
             nn.update()
         rec = dict(step=k, arrays=project(pas, sc), results=query_all(nn, pas, cfg))
         if reorder:
-            rec['reorder'] = reorder_all(nn, pas, sc)
+            via = bool(sc.get('via_solver'))
+            rec['reorder'] = reorder_all(nn, pas, sc, via)
             rec['arrays_reordered'] = project(pas, sc)
-            nn.update_domain()
-            nn.update()
+            if not via:
+                nn.update_domain()
+                nn.update()
             rec['arrays_after'] = project(pas, sc)
             rec['results_after'] = query_all(nn, pas, cfg)
         out.append(rec)
